@@ -102,12 +102,15 @@ EXC_PARENT = {"KeyError": "LookupError", "IndexError": "LookupError", "LookupErr
 def exc_matches(name, handler_types):
     if handler_types is None:
         return True
-    n = name.split(".")[-1]
+    from . import narrow as _nw
+    n0 = name.split(".")[-1]
+    n = n0
     while n is not None:
         if n in handler_types:
             return True
         n = EXC_PARENT.get(n)
-    return False
+    # classes the analysed program defines (several bases possible) and builtins outside the table
+    return any(_nw.is_sub(n0, h) for h in handler_types)
 
 
 class _NeedDecision(Exception):
@@ -121,6 +124,8 @@ TYPE_NAMES = {"dict": dict, "list": list, "tuple": tuple, "str": str, "bytes": b
 class Evaluator(object):
     def __init__(self, prog, module, cls=None, max_runs=4096, lenient=False, stubs=None):
         self.stubs = stubs or {}    # function fq -> python callable(arg values) standing for a package function
+        from . import narrow as _nw
+        _nw._EXTRA_PARENTS = _nw.program_exception_parents(prog)
         self.lenient = lenient      # unmodelled *value* expressions become opaque symbols (conditions on them fork)
         self.prog = prog
         self.module = module
@@ -260,6 +265,10 @@ class Evaluator(object):
             av = []
             if isinstance(st.exc, ast.Call):
                 av = [self.expr(a, env, fi) for a in st.exc.args]
+            if isinstance(st.exc, ast.Name) and st.exc.id in env and isinstance(env[st.exc.id], Opaque) and "__args__" in env[st.exc.id].attrs:
+                # `e = SomeError(args)` ... `raise e`: the instance built earlier (attributes set on it in between do not matter here)
+                inst = env[st.exc.id]
+                raise _Raise(inst.label, list(inst.attrs["__args__"].elts))
             raise _Raise(dump(exc) if exc is not None else "<reraise>", av)
         if isinstance(st, ast.Delete):
             for t in st.targets:
@@ -406,6 +415,9 @@ class Evaluator(object):
                     return o.attrs.get(e.attr, Opaque("%s.%s" % (o.label, e.attr)))
                 if isinstance(o, Sym) and e.attr == "__name__":
                     return Sym("name(%s)" % o.label, truthy=True, pytype=str)
+                if isinstance(o, Sym) and o.label.startswith("fresh:uuid.") and e.attr in ("hex", "urn", "int"):
+                    # one-to-one renderings of a UUID: as fresh as the UUID itself
+                    return Sym("%s(%s)" % (e.attr, o.label), truthy=True, pytype=int if e.attr == "int" else str)
             return self.global_value(e, fi)
         if isinstance(e, ast.Dict):
             d = D()
@@ -745,6 +757,22 @@ class Evaluator(object):
             if len(args) == 3:
                 return args[2]
             raise _Raise("AttributeError")
+        if fname in ("sorted", "list", "tuple") and len(args) == 1 and not kwargs and isinstance(args[0], D) and \
+                self.prog.resolve(fi.module, f) in (None, "builtin:" + fname):
+            ks = list(args[0].items)            # the keys of an abstract dictionary (constants), in insertion order / sorted
+            if fname == "sorted":
+                try:
+                    ks = sorted(ks)
+                except TypeError:
+                    raise _Raise("TypeError")
+            return L([K(k) for k in ks])
+        if fname in ("map", "sorted", "reversed", "enumerate", "zip", "filter") and isinstance(f, ast.Name) and f.id not in env and \
+                self.prog.resolve(fi.module, f) in (None, "builtin:" + fname):
+            # pure builtins over iterables: the result is an opaque sequence (whether they can raise is E4's question)
+            return Sym("opaque:%s(...)" % fname)
+        if isinstance(f, ast.Attribute) and f.attr == "join" and isinstance(f.value, ast.Constant) and isinstance(f.value.value, str) and \
+                len(args) == 1 and not isinstance(args[0], (K, L)):
+            return Sym("joined-string", pytype=str)
         if fname in ("any", "all") and len(args) == 1 and isinstance(args[0], L) and not kwargs:
             truths = [self.truth(x) for x in args[0].elts]
             return K(any(truths) if fname == "any" else all(truths))
